@@ -24,7 +24,7 @@ func (w *ammWorld) snap(sym string) *poolSnap {
 	if p == nil {
 		return nil
 	}
-	nD, eD := p.ExtractDebt(p.NativeAssetBalance, p.ExternalAssetBalance, false)
+	nD, eD := poolDepths(p)
 	return &poolSnap{nD.BigInt(), eD.BigInt(), p.PoolUnits.BigInt()}
 }
 
